@@ -32,6 +32,9 @@
 (*                               value of the sequential execution;          *)
 (*   ImagesVisited               every supercell image of a primitive atom   *)
 (*                               is visited by the image-scan loops;         *)
+(*   LastprivateIndependentOfSchedule  the value a lastprivate variable has  *)
+(*                               after the region is the sequential one;     *)
+(*   SiteModelled                every construct of the site was classified; *)
 (*   NoOutOfBounds               the interpreter met no access outside the   *)
 (*                               arrays of the scenario.                     *)
 EXTENDS Integers, Sequences, FiniteSets, TLC, SequencesExt
@@ -40,8 +43,8 @@ CONSTANTS Sites,        \* sequence of site records (generated)
           NThreads,     \* 2 or 3
           MaxAnyOrder   \* loops with at most this many iterations: any claim order
 
-VARIABLES site, pre, claimed, cur, pc, smem, pmem, badRF, badUndef, done
-vars == <<site, pre, claimed, cur, pc, smem, pmem, badRF, badUndef, done>>
+VARIABLES site, pre, claimed, cur, pc, smem, pmem, badRF, badUndef, done, taken, lpw, lastthread
+vars == <<site, pre, claimed, cur, pc, smem, pmem, badRF, badUndef, done, taken, lpw, lastthread>>
 
 Threads == 1..NThreads
 NSites == Len(Sites)
@@ -117,7 +120,8 @@ PreOf(s) ==
       own == Mat([i \in 1..n |-> scan[i].own])
       relidx == Mat([i \in 1..n |-> {p \in 1..Len(ev[i]) : ev[i][p][2] \in rel}])
       priv == {l \in 1..Len(cls) : cls[l] # "shared"}
-  IN [n |-> n, acc |-> ev, cls |-> cls, W |-> W, rel |-> rel, written |-> written,
+      lp == {l \in 1..Len(cls) : cls[l] \in {"lastprivate", "firstlastprivate"}}
+  IN [n |-> n, lp |-> lp, maylp |-> {x \in Sites[s].maywr : x[2] \in lp}, unmodelled |-> Sites[s].unmodelled, acc |-> ev, cls |-> cls, W |-> W, rel |-> rel, written |-> written,
       lastw |-> lastw, own |-> own, relidx |-> relidx, priv |-> priv,
       oob |-> Sites[s].oob, parallel |-> Sites[s].parallel, scanok |-> ScanOK(s)]
 
@@ -147,6 +151,10 @@ Init ==
   /\ pmem = [t \in Threads |-> [l \in pre.priv |-> -1]]   \* -1: undefined, 0: stale, 1: written in the current iteration
   /\ badRF = {} /\ badUndef = {}
   /\ done = {}
+  (* which of the data-dependent (conditional) writes to lastprivate variables happen: any subset *)
+  /\ taken \in SUBSET pre.maylp
+  /\ lpw = [t \in Threads |-> [l \in pre.lp |-> 0]]
+  /\ lastthread = 0
 
 Claim(t) ==
   /\ cur[t] = 0
@@ -157,7 +165,8 @@ Claim(t) ==
        /\ claimed' = claimed \cup {i}
   (* what the thread's private copies hold from earlier iterations is stale *)
   /\ pmem' = [pmem EXCEPT ![t] = [l \in DOMAIN @ |-> IF @[l] = 1 THEN 0 ELSE @[l]]]
-  /\ UNCHANGED <<site, pre, smem, badRF, badUndef, done>>
+  /\ lastthread' = IF cur'[t] = P.n THEN t ELSE lastthread
+  /\ UNCHANGED <<site, pre, smem, badRF, badUndef, done, taken, lpw>>
 
 (* one access of iteration i by thread-private memory pm / shared memory sm *)
 Apply(st, i, p) ==
@@ -170,8 +179,11 @@ Apply(st, i, p) ==
           ELSE IF k = 1 THEN [st EXCEPT !.sm[l] = <<i, p>>]
           ELSE IF st.sm[l] = Expected(i, p, l) THEN st
           ELSE [st EXCEPT !.rf = @ \cup {[it |-> i, idx |-> p, loc |-> l, saw |-> st.sm[l]]}]
-     ELSE IF k = 1 THEN [st EXCEPT !.pm[l] = 1]
-          ELSE IF st.pm[l] = 1 \/ (c = "firstprivate" /\ st.pm[l] = -1) THEN st
+     ELSE IF k = 1
+          THEN IF l \in P.lp /\ (<<i, l>> \notin P.maylp \/ <<i, l>> \in taken)
+               THEN [st EXCEPT !.pm[l] = 1, !.lp[l] = i]
+               ELSE [st EXCEPT !.pm[l] = 1]
+          ELSE IF st.pm[l] = 1 \/ (c \in {"firstprivate", "firstlastprivate"} /\ st.pm[l] = -1) THEN st
           ELSE [st EXCEPT !.ud = @ \cup {[it |-> i, idx |-> p, loc |-> l, holds |-> st.pm[l]]}]
 
 (* next visible position of iteration i at or after p (0: none)             *)
@@ -186,19 +198,20 @@ Step(t) ==
          v == NextVisible(i, pc[t])
          q == IF v = 0 THEN n ELSE v
          idxs == [x \in 1..(q - pc[t] + 1) |-> pc[t] + x - 1]
-         st0 == [sm |-> smem, pm |-> pmem[t], rf |-> badRF, ud |-> badUndef]
+         st0 == [sm |-> smem, pm |-> pmem[t], rf |-> badRF, ud |-> badUndef, lp |-> lpw[t]]
          st == FoldLeft(LAMBDA a, p : Apply(a, i, p), st0, idxs)
      IN /\ smem' = st.sm
         /\ pmem' = [pmem EXCEPT ![t] = st.pm]
         /\ badRF' = st.rf
         /\ badUndef' = st.ud
+        /\ lpw' = [lpw EXCEPT ![t] = st.lp]
         /\ IF q >= n
            THEN /\ cur' = [cur EXCEPT ![t] = 0]
                 /\ pc' = [pc EXCEPT ![t] = 0]
                 /\ done' = done \cup {i}
            ELSE /\ pc' = [pc EXCEPT ![t] = q + 1]
                 /\ UNCHANGED <<cur, done>>
-  /\ UNCHANGED <<site, pre, claimed>>
+  /\ UNCHANGED <<site, pre, claimed, taken, lastthread>>
 
 Next == \E t \in Threads : Claim(t) \/ Step(t)
 Spec == Init /\ [][Next]_vars
@@ -221,6 +234,19 @@ ResultIndependentOfSchedule ==
   (done = Iters) => \A l \in P.written : smem[l] = PrevWriter(P.n + 1, l)
 NoOutOfBounds == pre.oob = 0
 ImagesVisited == pre.scanok
+(* lastprivate: after the region the variable holds the private copy of the  *)
+(* thread that executed the sequentially LAST iteration.  What the code      *)
+(* after the loop reads must not depend on which thread ran which iteration: *)
+(* it has to be the value of the sequential execution, i.e. of the last      *)
+(* iteration (in sequential order) whose write actually happens, for every   *)
+(* choice `taken` of the data-dependent writes.                              *)
+Happens(i, l) == (\E p \in 1..Len(Acc(i)) : Acc(i)[p] = <<1, l>>) /\ (<<i, l>> \notin P.maylp \/ <<i, l>> \in taken)
+SeqFinalLP(l) == LET ws == {i \in Iters : Happens(i, l)} IN IF ws = {} THEN 0 ELSE MaxS(ws)
+LastprivateIndependentOfSchedule ==
+  (done = Iters /\ lastthread # 0) => \A l \in P.lp : lpw[lastthread][l] = SeqFinalLP(l)
+(* the extractor classified every construct of the site (otherwise the site  *)
+(* is conservatively reported: it may hide a schedule dependence)            *)
+SiteModelled == pre.unmodelled = 0
 RegionModelled == pre.parallel /\ P.n >= 2
 
 TypeOK ==
